@@ -32,7 +32,9 @@ type Result struct {
 }
 
 // OK is the empty passing result.
-func OK(nontrivial bool, labels ...string) Result { return Result{NonTrivial: nontrivial, Labels: labels} }
+func OK(nontrivial bool, labels ...string) Result {
+	return Result{NonTrivial: nontrivial, Labels: labels}
+}
 
 // Failf builds a failing result.
 func Failf(format string, a ...interface{}) Result { return Result{Fail: fmt.Sprintf(format, a...)} }
